@@ -24,7 +24,7 @@ from vmon.harness import CaseSkip
 PROP = "C08"
 RULE = ("case = (local space out of 19 class/symmetry pairs, MPS|MPO, N in 1..6 (7 for d=2; dense size <= 4096), start state kind "
         "(harness chain with random sector sets / random_mps|random_mpo / sum of 2-3 product states / a+a / GHZ-like with exact "
-        "ties / graded: dominant state + product states with amplitudes 1e-3..1e-10 / harness chain with one bond graded 1..1e-9), prefactor, program of 3-8 steps over canonize_, orthogonalize_site_ (+diagonalize_central_) + absorb_central_, "
+        "ties, optionally with 1-3 site tensors multiplied by 1e-30 .. 1e20 / graded: dominant state + product states with amplitudes 1e-3..1e-10 / harness chain with one bond graded 1..1e-9), prefactor, program of 3-8 steps over canonize_, orthogonalize_site_ (+diagonalize_central_) + absorb_central_, "
         "truncate_ (non-binding), observers (norm, Schmidt values, entropies), must-reject calls, and binding-truncation blocks "
         "(truncate_ or hand-driven sweep; option sets over D_total, tol, D_block, tol_block, truncate_multiplets), directions and "
         "normalize drawn per step); distinct = hash of (space, kind, N, start kind, bond sectors, program with options); "
@@ -55,6 +55,7 @@ BINDING = ({"D_total": 1}, {"D_total": 2}, {"D_total": 2}, {"D_total": 3}, {"D_t
 TAIL = ({"tol": 1e-2}, {"tol": 1e-4}, {"tol": 1e-5}, {"tol": 1e-6}, {"tol": 1e-7}, {"tol": 1e-8}, {"tol": 1e-9}, {"tol": 3e-11},
         {"D_total": 1}, {"D_total": 2}, {"D_total": 3}, {"D_total": 4}, {"D_total": 5}, {"D_total": 3, "tol": 1e-7},
         {"tol_block": 1e-5}, {"tol_block": 1e-8}, {"D_block": 1}, {"D_block": 2}, {"tol": 1e-6, "truncate_multiplets": True})
+SCALES = (1e-30, 1e-20, 1e-20, 1e-15, 1e-15, 1e-8, 1e8, 1e20)   # amplitudes put on single site tensors (not in psi.factor)
 REL_W, ABS_W = 1e-6, 1e-12      # returned weights vs the true relative distance: |d - d_true| <= REL_W * d_true + ABS_W
 
 
@@ -82,7 +83,8 @@ def floors(tier):
          "binding:manual-sweep": 330, "identity:normalize=False": 330, "identity:normalize=True": 330,
          "cut_multiset_checks": 1200, "cut_multiset_binding": 160, "schmidt_cuts_compared": 1400, "entropies_compared": 1400,
          "norm_compared": 300, "is_canonical_checked": 600, "final_to_tensor_crosschecks": 500, "start:ghz": 45,
-         "start:doubled": 50, "start:graded": 60, "start:graded-harness": 25, "small_weight_truncations": 25,
+         "start:doubled": 50, "states_with_site_amplitude_scale": 150, "states_with_tiny_site_amplitude": 80,
+         "states_with_huge_site_amplitude": 40, "states_with_site_amplitude_scale_and_factor": 40, "start:graded": 60, "start:graded-harness": 25, "small_weight_truncations": 25,
          "small_weight_local_truncations": 25, "weights_compared_relatively": 600, "local_weights_compared_relatively": 1200, "start:sum-of-products": 50, "start:random": 50, "rank_deficient_cuts": 30, "tie_cuts": 35,
          "kind:mpo": 120, "N=1": 30, "N=2": 150, "N=6": 60, "must_reject": 70}
     return {name: v * k for name, v in f.items()}
@@ -139,6 +141,7 @@ class Prog:
         self.steps = []
         self.psi = None
         self.v = None
+        self.scales = None
         ctx.count(f"N={self.N}")
         ctx.count("kind:" + self.kind)
         ctx.count("space:" + loc.tag())
@@ -240,16 +243,45 @@ class Prog:
         self.pre = pre
         self.psi = psi
         self.desc = desc
+        # amplitude scale: one or several *site tensors* carry a tiny / huge amplitude that is not held in psi.factor.
+        # Everything below is judged relatively to the dense state, so the property must hold at every scale.
+        self.scales = None
+        if rng.random() < 0.4:
+            v0, bad = R.obs_sites(psi, loc)
+            for _ in range(20):
+                sites = rng.sample(range(N), min(N, rng.choice((1, 1, 2, 3))))
+                sc = {n: rng.choice(SCALES) * rng.choice((1, 1, 1, -1)) for n in sites}
+                if -45 <= sum(np.log10(abs(x)) for x in sc.values()) <= 25:
+                    break
+            else:
+                sc = {rng.randrange(N): 1e-20}
+            for n, x in sorted(sc.items()):
+                psi[n] = x * psi[n]
+            self.scales = {str(n): x for n, x in sorted(sc.items())}
+            ctx.count("states_with_site_amplitude_scale")
+            if min(abs(x) for x in sc.values()) <= 1e-15:
+                ctx.count("states_with_tiny_site_amplitude")
+            if max(abs(x) for x in sc.values()) >= 1e8:
+                ctx.count("states_with_huge_site_amplitude")
+            if psi.factor != 1:
+                ctx.count("states_with_site_amplitude_scale_and_factor")
         v, bad = R.obs_sites(psi, loc)
         if bad:
             ctx.violation("observation:site-legs-inconsistent", f"start state: {bad}")
             raise Stop
+        if self.scales is not None:
+            # harness-side truth: the state before scaling times the product of the scales
+            prod = float(np.prod(list(self.scales.values())))
+            if not ctx.margin("obs:site-scaling", R.maxabs(v - v0 * prod), 256 * R.EPS * max(R.nrm(v0) * abs(prod), 1e-300)):
+                ctx.violation("observation:site-scaling", f"start: psi[n] = x * psi[n] with {self.scales} did not scale the dense state by {prod}")
+                raise Stop
+            v = v0 * prod
         a = R.obs_tensor(psi, loc)
         if not ctx.margin("obs:to_tensor-vs-sites", R.maxabs(a - v), CT * R.EPS * max(R.nrm(v), R.cond_scale(psi), 1e-300)):
             ctx.violation("observation:to_tensor-vs-site-contraction", f"start: to_tensor differs from site contraction by {R.maxabs(a - v):.2e}")
             raise Stop
-        if R.nrm(v) < 1e-8:
-            raise CaseSkip
+        if not R.nrm(v) > 1e-8 * R.cond_scale(psi):
+            raise CaseSkip       # vanishing or cancelling start
         self.v = v
         self.cond_rel = max(1.0, self.cond_scale() / R.nrm(v))
 
@@ -262,7 +294,8 @@ class Prog:
         return d
 
     def witness(self):
-        return {"space": self.loc.tag(), "kind": self.kind, "N": self.N, "start": self.how, "prefactor": self.pre, "q": self.q,
+        return {"space": self.loc.tag(), "kind": self.kind, "N": self.N, "start": self.how, "prefactor": self.pre, "site_scales": self.scales,
+                "q": self.q,
                 "start_structure": self.desc, "program": self.steps}
 
     def cond_scale(self):
@@ -737,10 +770,10 @@ def run_case(ctx, idx):
     except Stop:
         ctx.count("cases_stopped_at_first_violation")
     prog = tuple(tuple(repr(x) for x in s) for s in P.steps)
-    sig = (P.loc.tag(), P.kind, P.N, getattr(P, "how", None), repr(getattr(P, "desc", None))[:600], prog)
+    sig = (P.loc.tag(), P.kind, P.N, getattr(P, "how", None), repr(getattr(P, "desc", None))[:600], repr(getattr(P, "scales", None)), prog)
     ctx.case(sig, nontrivial=len(P.steps) > 0 and P.v is not None,
              sample={"space": P.loc.tag(), "kind": P.kind, "N": P.N, "start": getattr(P, "how", None),
-                     "prefactor": getattr(P, "pre", None), "program": P.steps})
+                     "prefactor": getattr(P, "pre", None), "site_scales": getattr(P, "scales", None), "program": P.steps})
 
 
 # ------------------------------------------------------------------ canaries
